@@ -75,8 +75,9 @@ def strip_comments(src):
 def hygiene():
     """no axioms, admits or disabled kernel checks anywhere in the development"""
     bad = []
-    for f in glob.glob(os.path.join(COQ, "**", "*.v"), recursive=True):
-        if "/Cases/" in f:
+    listed = [l.strip() for l in open(os.path.join(COQ, "_CoqProject")) if l.strip().endswith(".v")]
+    for f in [os.path.join(COQ, l) for l in listed]:
+        if not os.path.exists(f):
             continue
         src = strip_comments(open(f, errors="replace").read())
         for m in FORBIDDEN.finditer(src):
